@@ -1,47 +1,403 @@
 package vsched
 
-// ChanSend is `ch <- v` as a scheduling point (buffered channels only: the
-// operation is enabled while the buffer has room, then performed for real so
-// that the race detector sees the channel's own happens-before edge).
+import (
+	"reflect"
+	"time"
+	"unsafe"
+)
+
+// Channel operations of the code under test are scheduling points, and inside
+// a controlled execution the channel's content is modelled (it lives in the
+// execution, not in the real channel, so goroutines of the process that are
+// not threads of the execution never see it): a buffered channel has a queue
+// of at most cap(ch) values; on an unbuffered channel a send offers its value
+// and blocks until a receiver took it, a receive is enabled while an untaken
+// offer exists. Every value carries the send->receive happens-before edge for
+// the race detector. Closing is performed on the real channel too, so code
+// outside the overlay (context, net/http) sees it; a receive also completes
+// when the real channel yields a value or is closed (a value put there before
+// the execution began or by code outside the overlay, context cancellation).
+
+type offer struct {
+	v     any
+	taken bool
+	hb    int
+}
+
+type chanState struct {
+	offers []*offer
+	buf    []*offer
+	closed bool
+}
+
+// The states live in a slice searched linearly (an execution has a handful of channels): the runtime's map
+// functions report to the race detector on behalf of their caller, which would make the shim's own
+// bookkeeping look like a race of the code under test.
+type chanEntry struct {
+	p    uintptr
+	st   *chanState
+	keep any // the channel itself: its address is not reused while the execution knows it
+}
+
+var (
+	chanOwner  *Exec
+	chanStates []chanEntry
+)
+
+//go:norace
+func stateOf(ch any) *chanState {
+	if chanOwner != e {
+		chanOwner = e
+		chanStates = nil
+	}
+	p := reflect.ValueOf(ch).Pointer()
+	for i := range chanStates {
+		if chanStates[i].p == p {
+			return chanStates[i].st
+		}
+	}
+	st := &chanState{}
+	chanStates = append(chanStates, chanEntry{p, st, ch})
+	return st
+}
+
+//go:norace
+func (st *chanState) untaken() *offer {
+	for _, o := range st.offers {
+		if !o.taken {
+			return o
+		}
+	}
+	return nil
+}
+
+//go:norace
+func (st *chanState) drop(o *offer) {
+	for i, x := range st.offers {
+		if x == o {
+			st.offers = append(st.offers[:i], st.offers[i+1:]...)
+			return
+		}
+	}
+}
+
+// ChanSend is `ch <- v` as a scheduling point.
 //
 //go:norace
 func ChanSend[C ~chan T | ~chan<- T, T any](ch C, v T) {
 	if !Active() {
-		select {
+		if e == nil {
+			(chan<- T)(ch) <- v // no controlled execution: the real operation
+			return
+		}
+		select { // an execution is being torn down: never block a thread that is being ended
 		case (chan<- T)(ch) <- v:
 		default:
 		}
 		return
 	}
-	if cap(ch) == 0 {
-		panic("vsched: unbuffered channel operations are not modelled")
-	}
-	Point("chan-send", func() bool { return len(ch) < cap(ch) || !Active() })
-	if !Active() && len(ch) >= cap(ch) {
+	if ch == nil {
+		Point("chan-send(nil)", func() bool { return !Active() })
 		return
 	}
-	(chan<- T)(ch) <- v
+	st := stateOf(ch)
+	if cap(ch) == 0 {
+		o := &offer{v: v}
+		Release(unsafe.Pointer(&o.hb))
+		st.offers = append(st.offers, o)
+		Point("chan-send", func() bool { return o.taken || st.closed || !Active() })
+		if !o.taken {
+			st.drop(o)
+			if st.closed {
+				panic("send on closed channel")
+			}
+		}
+		return
+	}
+	Point("chan-send", func() bool { return len(st.buf) < cap(ch) || st.closed || !Active() })
+	if !Active() {
+		return
+	}
+	if st.closed {
+		panic("send on closed channel")
+	}
+	o := &offer{v: v}
+	Release(unsafe.Pointer(&o.hb))
+	st.buf = append(st.buf, o)
+}
+
+// ChanClose is close(ch).
+//
+//go:norace
+func ChanClose[C ~chan T | ~chan<- T, T any](ch C) {
+	if Active() && ch != nil {
+		stateOf(ch).closed = true
+	}
+	close((chan<- T)(ch))
+	if Active() {
+		Point("chan-close", alwaysEnabled)
+	}
+}
+
+// recvReady reports whether a receive on ch can complete now; for a value that came off the real channel
+// it keeps the value in *got.
+//
+//go:norace
+func recvReady[T any](ch <-chan T, st *chanState, got *recvd[T]) bool {
+	if got.have {
+		return true
+	}
+	if cap(ch) == 0 && st.untaken() != nil {
+		return true
+	}
+	if len(st.buf) > 0 {
+		return true
+	}
+	// nothing modelled to receive: the real channel may be closed, or a sender outside the overlay may wait
+	select {
+	case v, ok := <-ch:
+		got.have, got.v, got.ok = true, v, ok
+		return true
+	default:
+	}
+	return false
+}
+
+type recvd[T any] struct {
+	have bool
+	v    T
+	ok   bool
+}
+
+//go:norace
+func recvTake[T any](ch <-chan T, st *chanState, got *recvd[T]) (T, bool) {
+	if got.have {
+		return got.v, got.ok
+	}
+	if o := st.untaken(); cap(ch) == 0 && o != nil {
+		o.taken = true
+		st.drop(o)
+		Acquire(unsafe.Pointer(&o.hb))
+		v, _ := o.v.(T)
+		return v, true
+	}
+	if len(st.buf) > 0 {
+		o := st.buf[0]
+		st.buf = st.buf[1:]
+		Acquire(unsafe.Pointer(&o.hb))
+		v, _ := o.v.(T)
+		return v, true
+	}
+	var zero T
+	return zero, false
+}
+
+// ChanRecv2 is `v, ok := <-ch` as a scheduling point.
+//
+//go:norace
+func ChanRecv2[C ~chan T | ~<-chan T, T any](ch C) (T, bool) {
+	var zero T
+	if !Active() {
+		if e == nil {
+			v, ok := <-(<-chan T)(ch)
+			return v, ok
+		}
+		select {
+		case v, ok := <-(<-chan T)(ch):
+			return v, ok
+		default:
+			return zero, false
+		}
+	}
+	if ch == nil {
+		Point("chan-recv(nil)", func() bool { return !Active() })
+		return zero, false
+	}
+	st := stateOf(ch)
+	var got recvd[T]
+	Point("chan-recv", func() bool { return recvReady((<-chan T)(ch), st, &got) || !Active() })
+	return recvTake((<-chan T)(ch), st, &got)
 }
 
 // ChanRecv is `<-ch` as a scheduling point.
 //
 //go:norace
 func ChanRecv[C ~chan T | ~<-chan T, T any](ch C) T {
-	var zero T
-	if !Active() {
-		select {
-		case v := <-(<-chan T)(ch):
-			return v
-		default:
-			return zero
+	v, _ := ChanRecv2[C, T](ch)
+	return v
+}
+
+// SelCase is one communication clause of a select statement.
+type SelCase interface {
+	ready() bool
+	commit()
+	tryReal() bool
+}
+
+// RecvC is `case v, ok := <-ch`.
+type RecvC[T any] struct {
+	ch  <-chan T
+	st  *chanState
+	got recvd[T]
+	Val T
+	Ok  bool
+}
+
+//go:norace
+func RecvCase[C ~chan T | ~<-chan T, T any](ch C) *RecvC[T] {
+	c := &RecvC[T]{ch: (<-chan T)(ch)}
+	if ch != nil && Active() {
+		c.st = stateOf(ch)
+	}
+	return c
+}
+
+//go:norace
+func (c *RecvC[T]) ready() bool {
+	if c.ch == nil || c.st == nil {
+		return false
+	}
+	return recvReady(c.ch, c.st, &c.got)
+}
+
+func (c *RecvC[T]) tryReal() bool {
+	if c.ch == nil {
+		return false
+	}
+	select {
+	case c.Val, c.Ok = <-c.ch:
+		return true
+	default:
+		return false
+	}
+}
+
+//go:norace
+func (c *RecvC[T]) commit() { c.Val, c.Ok = recvTake(c.ch, c.st, &c.got) }
+
+// SendC is `case ch <- v`.
+type SendC[T any] struct {
+	ch chan<- T
+	st *chanState
+	v  T
+	o  *offer
+}
+
+//go:norace
+func SendCase[C ~chan T | ~chan<- T, T any](ch C, v T) *SendC[T] {
+	c := &SendC[T]{ch: (chan<- T)(ch), v: v}
+	if ch != nil && Active() {
+		c.st = stateOf(ch)
+		if cap(ch) == 0 {
+			c.o = &offer{v: v}
+			Release(unsafe.Pointer(&c.o.hb))
+			c.st.offers = append(c.st.offers, c.o)
 		}
 	}
-	if cap(ch) == 0 {
-		panic("vsched: unbuffered channel operations are not modelled")
+	return c
+}
+
+//go:norace
+func (c *SendC[T]) ready() bool {
+	if c.ch == nil || c.st == nil {
+		return false
 	}
-	Point("chan-recv", func() bool { return len(ch) > 0 || !Active() })
-	if len(ch) == 0 {
-		return zero
+	if c.st.closed {
+		return true
 	}
-	return <-(<-chan T)(ch)
+	if c.o != nil {
+		return c.o.taken
+	}
+	return len(c.st.buf) < cap(c.ch)
+}
+
+//go:norace
+func (c *SendC[T]) commit() {
+	if c.st.closed {
+		panic("send on closed channel")
+	}
+	if c.o == nil {
+		o := &offer{v: c.v}
+		Release(unsafe.Pointer(&o.hb))
+		c.st.buf = append(c.st.buf, o)
+	}
+}
+
+func (c *SendC[T]) tryReal() bool {
+	if c.ch == nil {
+		return false
+	}
+	select {
+	case c.ch <- c.v:
+		return true
+	default:
+		return false
+	}
+}
+
+//go:norace
+func (c *SendC[T]) withdraw() {
+	if c.o != nil && !c.o.taken {
+		c.st.drop(c.o)
+	}
+}
+
+// Select is a select statement: it blocks until a clause can proceed (or takes the default clause at once)
+// and returns the index of the clause taken, -1 for default. When several clauses can proceed the choice is a
+// decision of the schedule (the runtime picks one at random).
+//
+//go:norace
+func Select(hasDefault bool, cases ...SelCase) int {
+	if !Active() {
+		// outside a controlled execution the statement works on the real channels
+		for {
+			for i, c := range cases {
+				if c.tryReal() {
+					return i
+				}
+			}
+			if hasDefault || e != nil {
+				return -1
+			}
+			time.Sleep(200 * time.Microsecond)
+		}
+	}
+	anyReady := func() bool {
+		for _, c := range cases {
+			if c.ready() {
+				return true
+			}
+		}
+		return false
+	}
+	Point("select", func() bool { return hasDefault || anyReady() || !Active() })
+	var rdy []int
+	for i, c := range cases {
+		if c.ready() {
+			rdy = append(rdy, i)
+		}
+	}
+	pick := -1
+	if len(rdy) > 0 {
+		pick = rdy[Choose(len(rdy))]
+	}
+	for i, c := range cases {
+		if s, ok := c.(interface{ withdraw() }); ok && i != pick {
+			s.withdraw()
+		}
+	}
+	if pick >= 0 {
+		cases[pick].commit()
+	}
+	return pick
+}
+
+// ChanLen is len(ch) for a channel whose content is modelled.
+//
+//go:norace
+func ChanLen[C ~chan T | ~chan<- T | ~<-chan T, T any](ch C) int {
+	if !Active() || ch == nil {
+		return len(ch)
+	}
+	return len(stateOf(ch).buf) + len(ch)
 }
